@@ -184,12 +184,15 @@ func (w *World) addContractFile(c *ContractFile) {
 			newOwn := strings.Contains(full, c.PkgPath+".")
 			switch {
 			case prevOwn && !newOwn:
+				fc.merged = true
 				continue
 			case !prevOwn && newOwn:
+				prev.merged = true
 				w.contracts[full] = fc
 				continue
 			}
 			mergeContracts(prev, fc)
+			fc.merged = true
 			continue
 		}
 		w.contracts[full] = fc
@@ -249,6 +252,18 @@ func mergeContracts(dst, src *FuncContract) {
 		}
 	}
 	dst.HasAssigns = dst.HasAssigns || src.HasAssigns
+	for k, v := range src.CalleeEns {
+		if dst.CalleeEns == nil {
+			dst.CalleeEns = map[string][]*Clause{}
+		}
+		dst.CalleeEns[k] = append(dst.CalleeEns[k], v...)
+	}
+	for k, v := range src.CalleeAsg {
+		if dst.CalleeAsg == nil {
+			dst.CalleeAsg = map[string][]string{}
+		}
+		dst.CalleeAsg[k] = append(dst.CalleeAsg[k], v...)
+	}
 	for k := range src.Abstract {
 		if dst.Abstract == nil {
 			dst.Abstract = map[string]bool{}
